@@ -614,6 +614,46 @@ pub fn run_tails(cd: &CredDef, l: u32, id: &str) -> Result<Value, String> {
     // the secret tail g'^(gamma^(L+1)) never appears
     let gamma = vf::GroupOrderElement::from_string(&gamma_hex).map_err(|e| e.to_string())?;
     let secret = g2p_canon(&g_dash.mul(&vf::tail_index_pow(l + 1, &gamma).unwrap()).unwrap());
+    // a generator stored after k tails and loaded again (JSON and MessagePack, named and
+    // positional) continues with exactly the tails the uninterrupted one produced, to the end,
+    // and still withholds the secret one (sixth seeding round: state dropped on the round trip)
+    if status == "ok" {
+        let full: Vec<Value> = outs.iter().map(|o| o["tail"].clone()).collect();
+        let mut cuts: Vec<usize> = vec![0, 1, 2, l as usize - 1, l as usize, l as usize + 1, 2 * l as usize, 2 * l as usize + 1];
+        cuts.sort(); cuts.dedup();
+        for &k in cuts.iter().filter(|&&k| k < full.len()) {
+            for form in ["json", "msgpack_named", "msgpack"] {
+                let mut g = Issuer::revocation_tails_generator(&cd.pk, &key_priv, l).map_err(|e| e.to_string())?;
+                for _ in 0..k { let _ = g.try_next(); }
+                let loaded: Option<RevocationTailsGenerator> = match form {
+                    "json" => from_jv::<RevocationTailsGenerator>(&jv(&g)).ok(),
+                    "msgpack_named" => rmp_serde::to_vec_named(&g).ok().and_then(|b| rmp_serde::from_slice(&b).ok()),
+                    _ => rmp_serde::to_vec(&g).ok().and_then(|b| rmp_serde::from_slice(&b).ok()),
+                };
+                let mut g2 = match loaded {
+                    Some(x) => x,
+                    None => {
+                        oracles.push(json!({"name":"generator_serde_state","ok":false,"detail":format!("generator stored after {} tails does not load again ({}, L={})", k, form, l)}));
+                        continue;
+                    }
+                };
+                let mut bad: Option<String> = None;
+                for pos in k..full.len() {
+                    let t = match guard(|| g2.try_next()) {
+                        Out::Ok(t) => json!(t.map(|t| g2p_canon(t.as_ref()))),
+                        o => json!(format!("<{}>", o.tag())),
+                    };
+                    if t == json!(secret) {
+                        oracles.push(json!({"name":"secret_never_emitted","ok":false,"detail":format!("generator for L={} stored after {} tails and loaded again ({}) emits g'^(gamma^(L+1)) at position {}", l, k, form, pos)}));
+                    }
+                    if t != full[pos] && bad.is_none() { bad = Some(format!("position {}", pos)); }
+                }
+                if let Some(b) = bad {
+                    oracles.push(json!({"name":"generator_serde_state","ok":false,"detail":format!("generator for L={} stored after {} tails and loaded again ({}) continues differently from {}", l, k, form, b)}));
+                }
+            }
+        }
+    }
     for (k, o) in outs.iter().enumerate() {
         if o["tail"] == json!(secret) {
             oracles.push(json!({"name":"secret_never_emitted","ok":false,"detail":format!("position {} of the generator for L={} is g'^(gamma^(L+1))", k, l)}));
